@@ -321,6 +321,75 @@ fn random_history(rng: &mut Rng, base: u64, probes: &mut Vec<u64>, restart_heavy
     toks
 }
 
+/// Histories in which the cut-off of an origin actually moves past earlier stamps: early
+/// writes, then every origin heard again on every source more than a forgiveness period
+/// later, then LATE operations (stamps between the early ones and the cut-off) on known and
+/// unknown keys, as single and bulk requests, with storage faults, purges and restarts.
+fn cutoff_history(rng: &mut Rng, probes: &mut Vec<u64>) -> Vec<String> {
+    let keys = [1u64, 2, 3, 4];
+    let b0 = *rng.pick(&[5u64, 80_000_000]);
+    let norig = 1 + rng.below(2);
+    let mut toks = Vec::new();
+    let mut used = Vec::new();
+    let mut pl = 0x9000u64 + rng.below(500) * 16;
+    let o = |rng: &mut Rng| if rng.chance(1, 7) { "f" } else { "k" };
+    // phase 1
+    for i in 0..(1 + rng.below(4)) {
+        let t = mk(b0 + i * 10, 0, 1 + rng.below(norig));
+        used.push(t);
+        pl += 1;
+        if rng.chance(2, 3) {
+            toks.push(format!("s:{}:{:x}:{:x}:{:x}:{}", rng.below(2), rng.pick(&keys), t, pl, o(rng)));
+        } else {
+            toks.push(format!("d:{}:{:x}:{:x}:{}", rng.below(2), rng.pick(&keys), t, o(rng)));
+        }
+    }
+    // phase 2: the cut-off moves
+    let gap = *rng.pick(&[W_TICKS + 100, W_TICKS + 100, 2 * W_TICKS, W_TICKS - 3]);
+    let mut c = 0;
+    for origin in 1..=norig {
+        for src in 0..2 {
+            if rng.chance(1, 10) { continue; }
+            c += 1;
+            let t = mk(b0 + gap + c, 0, origin);
+            used.push(t);
+            pl += 1;
+            toks.push(format!("s:{}:{:x}:{:x}:{:x}:k", src, 9 + c, t, pl));
+        }
+    }
+    if rng.chance(1, 3) { toks.push("P:k".into()); }
+    // phase 3: late operations
+    for _ in 0..(1 + rng.below(4)) {
+        let late = mk(b0 + *rng.pick(&[3u64, 15, 25, 60, 100, gap - W_TICKS + 1, gap - W_TICKS - 1]), rng.below(2), 1 + rng.below(norig));
+        used.push(late);
+        pl += 1;
+        let src = rng.below(2);
+        match rng.below(5) {
+            0 | 1 => toks.push(format!("s:{}:{:x}:{:x}:{:x}:{}", src, rng.pick(&keys), late, pl, o(rng))),
+            2 => toks.push(format!("d:{}:{:x}:{:x}:{}", src, rng.pick(&keys), late, o(rng))),
+            3 => {
+                let late2 = mk(b0 + 40 + rng.below(30), 1, 1 + rng.below(norig));
+                used.push(late2);
+                let oc = *rng.pick(&["k", "k", "f", "m10", "m01", "m11"]);
+                toks.push(format!("S:{}:{}:{:x}.{:x}.{:x},{:x}.{:x}.{:x}", src, oc, rng.pick(&keys), late, pl, rng.pick(&keys), late2, pl + 0x100));
+            },
+            _ => {
+                let late2 = mk(b0 + 40 + rng.below(30), 1, 1 + rng.below(norig));
+                used.push(late2);
+                let oc = *rng.pick(&["k", "k", "f", "m10", "m01"]);
+                toks.push(format!("D:{}:{}:{:x}.{:x},{:x}.{:x}", src, oc, rng.pick(&keys), late, rng.pick(&keys), late2));
+            },
+        }
+        if rng.chance(1, 4) { toks.push("R".into()); }
+        if rng.chance(1, 5) { toks.push(if rng.chance(1, 2) { "P:k".into() } else { "P:m10".into() }); }
+    }
+    used.sort();
+    used.dedup();
+    used.truncate(12);
+    *probes = used;
+    toks
+}
+
 fn main() {
     quiet_panics();
     let args = Args::parse();
@@ -401,6 +470,12 @@ fn main() {
             n_ex += 1;
         }
         w.stats.add("exhaustive_histories", n_ex);
+        let n_cut = if args.thorough() { 40_000 } else { 4_000 };
+        for _ in 0..n_cut {
+            let mut pr = Vec::new();
+            let toks = cutoff_history(&mut rng, &mut pr);
+            run_case(&mut w, &pr, &toks).await;
+        }
         let n_random = if args.thorough() { 40_000 } else { 4_000 };
         for _ in 0..n_random {
             let mut pr = Vec::new();
